@@ -14,7 +14,7 @@
 From Coq Require Import NArith List Bool Arith.
 Import ListNotations.
 
-Definition byte := N.
+Notation byte := N (only parsing).
 
 (* components.h: struct String { char* str; size_t nbytes; uint8_t is_ref; } ; str = None is NULL *)
 Record String := mkS { str : option nat; nbytes : nat; is_ref : bool }.
